@@ -572,6 +572,10 @@ class Gen:
         # other side: a row-selection / extend variant of the same prefix (shared sub-DAG) or same table
         other = St(st.node, st.frame, st.kinds)
         e, _ = self.boolean(other)
+        if "uid" in st.frame.columns and not st.has_null("uid") and rng.random() < 0.2:
+            # a side that is empty at run time (a filter nothing passes)
+            e = ["bin", "<", ["col", "uid"], ["lit", -1000000]]
+            self.cnt("concat_emptied_side")
         if core.expr_cols(e):
             stp = {"op": "select_rows", "expr": e}
             try:
@@ -664,6 +668,10 @@ class Gen:
                     if r is not None:
                         r, right = r[0], r[1]
                         r = (r, {})
+                        if rng.random() < 0.4:
+                            # the filtered variant is the first input, the prefix itself the second
+                            st, right = right, st
+                            self.cnt("concat_filtered_side_first")
                 else:
                     r = None
             except Exception:
